@@ -79,6 +79,8 @@ def rules(chk, db):
     prepare_first(chk, db, 'PF')
     ilrules.base_size(chk, db, 'BS')
     encrules.size_rules(chk, db)
+    chk.rule('CO', 'wrapper Size() sums the sizes of exactly the component encodings the writer emits', minimum=15)
+    encrules.composition(chk, db, 'CO', ('Size',))
     encrules.narrowing(chk, db, 'NR', {'Size', 'WritePayload', 'Write'})
     ids = {'T': 'T', 'G': 'G', 'E': 'E', 'C': 'C'}
     for rec in ('nop::BufferWriter', 'nop::PedanticBufferWriter', 'nop::ConstexprBufferWriter'):
